@@ -545,6 +545,21 @@ def clist_method(I, st, ref, h, name, args, kwargs, node):
             st.trace.append(Event("read", f"{src.tag}.__iter__", [a0], lineno=lineno(node), held=I.held_locks(st)))
             h.items, h.arr, h.n, h.k = None, src.arr, src.n, src.k
             return [(st, None)]
+        if not items and isinstance(a0, Ref) and isinstance(st.get(a0), HDict) and not st.get(a0).concrete:
+            # iterating an abstract dict: its keys, each once, in insertion order - which the dom/val/size model does not
+            # track, so the order is unconstrained (sound over-approximation: every property proved holds for every order)
+            src = st.get(a0)
+            used("iter(dict): the keys, each exactly once, in an order the dict model does not track")
+            arr = z3.Const(fresh_name("dictkeys"), z3.ArraySort(z3.IntSort(), Obj))
+            i, j = z3.Int(fresh_name("dk_i")), z3.Int(fresh_name("dk_j"))
+            k = z3.Const(fresh_name("dk_k"), Obj)
+            pos = z3.Function(fresh_name("dk_pos"), Obj, z3.IntSort())
+            st.assume(z3.ForAll([i], z3.Implies(z3.And(0 <= i, i < src.size), z3.Select(src.dom, z3.Select(arr, i)))),
+                      z3.ForAll([i, j], z3.Implies(z3.And(0 <= i, i < j, j < src.size), z3.Select(arr, i) != z3.Select(arr, j))),
+                      z3.ForAll([k], z3.Implies(z3.Select(src.dom, k), z3.And(0 <= pos(k), pos(k) < src.size, z3.Select(arr, pos(k)) == k))))
+            st.trace.append(Event("read", "dict.__iter__", [a0], lineno=lineno(node), held=I.held_locks(st)))
+            h.items, h.arr, h.n, h.k = None, arr, src.size, "obj"
+            return [(st, None)]
         items.extend(I.iter_concrete(st, a0, node))
         return [(st, None)]
     if name == "insert":
